@@ -108,7 +108,21 @@ func doSubset(f *sfnt.Font, list []int) (res *sfnt.Font, msg string) {
 			res, msg = nil, "Subset panicked: "+fmt.Sprint(r)
 		}
 	}()
-	return f.Subset(glyphList(list)), ""
+	// the glyph list belongs to the caller, who re-uses it as soon as Subset has returned
+	gl := glyphList(list)
+	res = f.Subset(gl)
+	scribbleList(gl)
+	return res, ""
+}
+
+// scribbleList overwrites a glyph list that was handed to Subset (reversed, then set to one value).
+func scribbleList(gl []glyph.ID) {
+	for i, j := 0, len(gl)-1; i < j; i, j = i+1, j-1 {
+		gl[i], gl[j] = gl[j], gl[i]
+	}
+	for i := range gl {
+		gl[i] = gl[0]
+	}
 }
 
 func doOutlinesSubset(o *cff.Outlines, list []int, id *subx.Ident) (p *subx.Proj, msg string) {
@@ -117,7 +131,9 @@ func doOutlinesSubset(o *cff.Outlines, list []int, id *subx.Ident) (p *subx.Proj
 			p, msg = subx.Empty(), "Outlines.Subset panicked: "+fmt.Sprint(r)
 		}
 	}()
-	sub := o.Subset(glyphList(list))
+	gl := glyphList(list)
+	sub := o.Subset(gl)
+	scribbleList(gl)
 	p = subx.Empty()
 	p.OK = true
 	subx.ProjectCFF(p, sub, id)
